@@ -507,10 +507,13 @@ impl World {
                 self.cache(*c)?;
                 let mut dst = self.caches.get_mut(*d)?.take()?;
                 with_ctx(|x| x.next_tok = *base);
-                begin_op(None);
+                begin_op(line.panic_at);
                 let src = self.caches[*c].as_ref().unwrap();
                 let r = catch_unwind(AssertUnwindSafe(|| dst.clone_from(src)));
                 let log = end_op();
+                if r.is_err() {
+                    clone_abort_leaks(&log);
+                }
                 for e in &log.events {
                     match e {
                         Ev::CloneK(_, n) | Ev::CloneV(_, n) => self.moved_in.push(*n),
@@ -543,6 +546,7 @@ impl World {
                         Some(o)
                     }
                     Err(_) => {
+                        clone_abort_leaks(&log);
                         let mut o = self.finish(line, Ret::Panicked, true, log, None, pre, false, false);
                         o.src_post = self.cache(*c).map(|x| observe(x, true));
                         Some(o)
@@ -875,6 +879,38 @@ fn run_op(cache: &mut Cache, op: &OpKind) -> Ret {
             Ret::Items(IterKind::Iter, vec![])
         }
     }
+}
+
+/// C06 for a `clone()` cut short by a panic of `Clone`/`Hash`: the half-built clone is dropped while unwinding,
+/// so every copy that had been *inserted* into it is dropped exactly once (copies still in flight at the
+/// panic — a key whose value's clone panicked, a pair whose key's hash panicked — sit in `MaybeUninit` and are
+/// leaked, which is allowed). The token table shows which copies are still alive.
+fn clone_abort_leaks(log: &OpLog) {
+    let mut pairs: Vec<(u64, Option<u64>)> = Vec::new();
+    for e in &log.events {
+        match e {
+            Ev::CloneK(_, n) => pairs.push((*n, None)),
+            Ev::CloneV(_, n) => { if let Some(l) = pairs.last_mut() { if l.1.is_none() { l.1 = Some(*n); } } }
+            _ => {}
+        }
+    }
+    let mut complete: Vec<(u64, u64)> = pairs.iter().filter_map(|(k, v)| v.map(|v| (*k, v))).collect();
+    match log.panicked {
+        Some((Kind::Hash, _)) | Some((Kind::Eq, _)) => { complete.pop(); }
+        // the panicking clone call itself logged its event before it panicked: that copy never existed
+        Some((Kind::CloneK, _)) => {}
+        Some((Kind::CloneV, _)) => { complete.pop(); }
+        _ => return,
+    }
+    with_ctx(|c| {
+        for (k, v) in complete {
+            for t in [k, v] {
+                if c.toks.get(&t) == Some(&TokState::Live) {
+                    c.violations.push(format!("copy {} made for a clone that was aborted by a panic had been inserted into the half-built clone but was never dropped", t));
+                }
+            }
+        }
+    });
 }
 
 /// C12 for the iterator methods a caller reaches through adapters (`count`, `last`, `nth`, `nth_back`,
